@@ -336,15 +336,18 @@ func sbEvalHere(d *sbDir, cfg string, scripts []string) []sbResult {
 	defer os.Unsetenv(sbEnvNew)
 	realOut := os.Stdout
 	var env *zygo.Zlisp
+	d.reset()
+	outf, _ := os.Create(filepath.Join(d.h, "out"))
+	defer outf.Close()
 	for i, script := range scripts {
 		res[i].script = script
-		d.reset()
 		os.Setenv(sbEnvName, sbEnvSecret)
 		os.Unsetenv(sbEnvNew)
 		if env == nil {
 			env = sbMkEnv(cfg)
 		}
-		outf, _ := os.Create(filepath.Join(d.h, "out"))
+		outf.Truncate(0)
+		outf.Seek(0, 0)
 		os.Stdout = outf
 		savedOur := zygo.OurStdout
 		zygo.OurStdout = outf // the package's own handle on stdout, taken at start-up
@@ -375,14 +378,18 @@ func sbEvalHere(d *sbDir, cfg string, scripts []string) []sbResult {
 		}
 		os.Stdout = realOut
 		zygo.OurStdout = savedOur
-		outf.Close()
 		if timedOut {
 			res[i].note = "timeout"
 			env = nil // the stuck evaluation keeps the old one
+			d.reset()
 			continue
 		}
 		ob, _ := os.ReadFile(filepath.Join(d.h, "out"))
-		eff := append(sbTextEffects(text+"\n"+string(ob)), d.fsEffects()...)
+		fse := d.fsEffects()
+		if len(fse) > 0 {
+			d.reset() // only a touched canary directory needs rebuilding
+		}
+		eff := append(sbTextEffects(text+"\n"+string(ob)), fse...)
 		if os.Getenv(sbEnvName) != sbEnvSecret || os.Getenv(sbEnvNew) != "" {
 			eff = append(eff, "env-write")
 		}
